@@ -167,19 +167,36 @@ def gen(tier, rng):
                 stmt = "CLS"
                 term.put("\x0c")
                 term.col = 0
-            elif r < 0.94:
+            elif r < 0.93:
                 stmt = 'INPUT "in";Q'
                 term.put("\x05in? \x06")
                 term.col = 0
                 inputs.append("5")
+            elif r < 0.97:
+                stmt = rng.choice(["CLEAR", "CLEAR", "RESTORE", "DEFINT Q"])       # none of these moves the cursor
             else:
                 stmt = "Q=Q+1"
             if tron and term.out is not None:
                 pass
             lines.append("%d %s" % (ln, stmt))
             ln += 10
-        calls = ["R5000"] + [sess.E(l) for l in lines] + [sess.E("RUN"), "R5000"] + ["A5000:" + sess.hx(r) for r in inputs]
-        cases.append(Case(sess.session(calls), sig="\n".join(lines), tag="layout", meta=("layout", term.out, term.col)))
+        run = "RUN"
+        out = term.out
+        if rng.random() < 0.15:
+            # the cursor is already mid-line when RUN is typed: RUN itself prints nothing and must not move it
+            pre = rng.choice(["ab", "x" * 13, "12345", "é"])
+            run = 'PRINT "%s";:RUN' % pre
+            t2 = Term()
+            t2.put(pre)
+            lines, inputs = [], []
+            ln = 10
+            for _ in range(rng.randint(1, 4)):
+                lines.append("%d %s" % (ln, gen_print(rng, t2)))
+                ln += 10
+            out, term = t2.out, t2
+        calls = ["R5000"] + [sess.E(l) for l in lines] + [sess.E(run), "R5000"] + ["A5000:" + sess.hx(r) for r in inputs]
+        cases.append(Case(sess.session(calls), sig="\n".join(lines) + ("\n#typed: " + run if run != "RUN" else ""), tag="layout",
+                          meta=("layout", out, term.col)))
     # formatting of random values
     m = 4000 if tier == "quick" else 200000
     for _ in range(m):
